@@ -176,6 +176,27 @@ def work_diff(chunk):
                         if dv:
                             col.violation({"property": "C10", "sig": classify_diff(absence, vt, dv, opts.get("rule")) + ":" + variant, "kind": "diff", "spec": spec, "opts": opts, "absence": list(absence), "variant": vkw,
                                            "detail": {"first_difference(path, after-remove, absence-free)": dv}})
+        # long holiday blocks (120 and 105 consecutive steps): the run must still complete - within the absence-free makespan plus the number of absence steps -
+        # and, after the removal, equal the absence-free run
+        if opts.get("rule") != "FIFO":
+            for absence in (tuple(range(1, 121)), (0,) + tuple(range(mk // 2 + 1, mk // 2 + 106))):
+                lo = dict(opts, max_time=mk + len(absence) + 3)
+                try:
+                    m1, m2, t_with = differential(spec, lo, absence)
+                except Exception as e:
+                    col.violation({"property": "C10", "sig": "C10:differential-raised:%s" % type(e).__name__, "kind": "diff-long", "spec": spec, "opts": lo, "absence": list(absence), "detail": repr(e)})
+                    continue
+                col.evaluations += 2
+                col.checks["c10.differential-long-block"] += 1
+                col.transitions.add(hash((key, "long", absence[:2], len(absence))))
+                if int(m1.project.status) != 1:
+                    col.violation({"property": "C10", "sig": "C10:run-with-absence-steps-did-not-complete-within-makespan-plus-absence-steps", "kind": "diff-long", "spec": spec, "opts": lo, "absence": list(absence),
+                                   "detail": {"absence_free_makespan": mk, "absence_steps": len(absence), "max_time": lo["max_time"], "time": t_with, "status": int(m1.project.status)}})
+                    continue
+                d = diff_paths(logs_only(m1), logs_only(m2))
+                if d:
+                    col.violation({"property": "C10", "sig": classify_diff(absence, t_with, d, opts.get("rule")) + ":long-block", "kind": "diff-long", "spec": spec, "opts": lo, "absence": list(absence),
+                                   "detail": {"first_difference(path, after-remove, absence-free)": d}})
         if len(col.samples) < 2:
             col.samples.append({"spec": spec, "opts": opts, "absence_lists": "all subsets of size <= %d of steps 0..%d plus %s" % (maxlen, mk + 1, list(extra_idx))})
     return col
@@ -268,6 +289,9 @@ def run(tier, seed):
     col.merge(stepcheck.explore(stepcheck.resumed_edit_items(("worker-absence-append-3",), ks=(1, 2, 3)), MONS, 0, 0, seed=seed))
     # backward runs (inner run observed, logs left unreversed) with project-wide absence steps and both values of the automatic-task flag
     bi = [(sp, dict(o, backward=True, rev=False, absence=list(ab))) for sp, o in mi[:: (5 if tier == "quick" else 2)] for ab in ((1,), (0, 2), (2, 3))]
+    # ... with the logs reversed, and forward results reversed by hand once or twice
+    bi += [(sp, dict(o, backward=True, rev=True, absence=list(ab))) for sp, o in mi[:: (7 if tier == "quick" else 3)] for ab in ((1,), (0, 2), (2, 3))]
+    bi += [(sp, dict(o, absence=list(ab), post_reverse=n)) for sp, o in mi[:: (7 if tier == "quick" else 3)] for ab in ((1,), (0, 2), (2, 3)) for n in (1, 2)]
     col.merge(stepcheck.explore(bi, MONS, 0, 0, seed=seed))
     # a step width other than 1: a step is an absence step exactly when its own time is in the list (times between two steps name no step)
     ut = [(sp, dict(o, unit_time=u, absence=list(ab), max_time=o["max_time"] * u)) for sp, o in mi[:: (9 if tier == "quick" else 3)] for u, ab in ((2, (1, 3)), (2, (3,)), (3, (1, 2, 4)))]
@@ -299,6 +323,12 @@ def replay(v):
     if v.get("kind") == "diff-load":
         col = work_diff([(v["spec"], v["opts"], 0, ())])
         return [x for x in col.violations if x.get("kind") == "diff-load" and x.get("absence") == v.get("absence")]
+    if v.get("kind") == "diff-long":
+        m1, m2, t_with = differential(v["spec"], v["opts"], v["absence"])
+        if int(m1.project.status) != 1:
+            return [{"sig": "C10:run-with-absence-steps-did-not-complete-within-makespan-plus-absence-steps", "detail": {"time": t_with}}]
+        d = diff_paths(logs_only(m1), logs_only(m2))
+        return [{"sig": classify_diff(v["absence"], t_with, d, v["opts"].get("rule")) + ":long-block", "detail": d}] if d else []
     if v.get("kind") == "diff" and v.get("variant"):
         vname = "continued-from-json" if v["variant"].get("via_json") else "numpy-integer-list"
         try:
